@@ -8,6 +8,15 @@ import "fmt"
 
 func hop(c int, h HOp) Step { return Step{Op: "h", C: c, H: &h} }
 
+// tok: payload token of the i-th of n messages; in a burst of two or more the last one is the EMPTY message
+// (token 0: it marshals to a zero-length body), so that zero-length bodies occur at every kind of position
+func tok(base, i, n int) int64 {
+	if n >= 2 && i == n-1 {
+		return 0
+	}
+	return int64(base + i)
+}
+
 // A base trace: a complete fault-free conversation on one stream (call index c),
 // as a schedule: user operations, handler operations and wire deliveries.
 type baseTrace struct {
@@ -27,10 +36,10 @@ func bidiTrace(n, m int, eagerRead bool, retCode int) baseTrace {
 	return baseTrace{Name: name, Kind: "Bidi", Steps: func(c int) []Step {
 		s := []Step{{Op: "c2s"}}
 		for i := 0; i < n; i++ {
-			s = append(s, Step{Op: "send", C: c, B: int64(10 + i)}, Step{Op: "c2s"}, hop(c, HOp{Op: "recv"}))
+			s = append(s, Step{Op: "send", C: c, B: tok(10, i, n)}, Step{Op: "c2s"}, hop(c, HOp{Op: "recv"}))
 		}
 		for j := 0; j < m; j++ {
-			s = append(s, hop(c, HOp{Op: "send", B: int64(20 + j)}), Step{Op: "s2c"})
+			s = append(s, hop(c, HOp{Op: "send", B: tok(20, j, m)}), Step{Op: "s2c"})
 			if eagerRead {
 				s = append(s, Step{Op: "recv", C: c})
 			}
@@ -87,7 +96,7 @@ func sstreamTrace(m int, lazy bool) baseTrace {
 	return baseTrace{Name: name, Kind: "SStream", Steps: func(c int) []Step {
 		s := []Step{{Op: "c2s"}, {Op: "send", C: c, B: 10}, {Op: "closesend", C: c}, {Op: "c2s"}, {Op: "c2s"}, hop(c, HOp{Op: "recv"})}
 		for j := 0; j < m; j++ {
-			s = append(s, hop(c, HOp{Op: "send", B: int64(20 + j)}), Step{Op: "s2c"})
+			s = append(s, hop(c, HOp{Op: "send", B: tok(20, j, m)}), Step{Op: "s2c"})
 			if !lazy {
 				s = append(s, Step{Op: "recv", C: c})
 			}
@@ -111,7 +120,7 @@ func cstreamTrace(n int, retCode int) baseTrace {
 	return baseTrace{Name: name, Kind: "CStream", Steps: func(c int) []Step {
 		s := []Step{{Op: "c2s"}}
 		for i := 0; i < n; i++ {
-			s = append(s, Step{Op: "send", C: c, B: int64(10 + i)}, Step{Op: "c2s"}, hop(c, HOp{Op: "recv"}))
+			s = append(s, Step{Op: "send", C: c, B: tok(10, i, n)}, Step{Op: "c2s"}, hop(c, HOp{Op: "recv"}))
 		}
 		s = append(s, Step{Op: "closesend", C: c}, Step{Op: "c2s"}, hop(c, HOp{Op: "recv"}))
 		if retCode == 0 {
@@ -130,7 +139,7 @@ func cstreamBurstTrace(n int) baseTrace {
 	return baseTrace{Name: fmt.Sprintf("cstream-burst%d", n), Kind: "CStream", Steps: func(c int) []Step {
 		s := []Step{}
 		for i := 0; i < n; i++ {
-			s = append(s, Step{Op: "send", C: c, B: int64(10 + i)})
+			s = append(s, Step{Op: "send", C: c, B: tok(10, i, n)})
 		}
 		s = append(s, Step{Op: "closesend", C: c}, Step{Op: "c2s"})
 		for i := 0; i < n; i++ {
@@ -269,7 +278,11 @@ func c11HandlerAbandons(kind string, n, k, r, others int, probeDl bool, retCode 
 	s := append([]Step{}, pre...)
 	s = append(s, Step{Op: "open", Kind: kind}, Step{Op: "c2s"})
 	for i := 0; i < n; i++ {
-		s = append(s, Step{Op: "send", C: c, B: int64(10 + i)})
+		b := int64(10 + i)
+		if (i+n)%2 == 1 {
+			b = 0 // the empty message: a zero-length body
+		}
+		s = append(s, Step{Op: "send", C: c, B: b})
 	}
 	for i := 0; i < r; i++ {
 		s = append(s, Step{Op: "c2s"})
@@ -281,7 +294,7 @@ func c11HandlerAbandons(kind string, n, k, r, others int, probeDl bool, retCode 
 		s = append(s, hop(c, HOp{Op: "send", B: 20}))
 	}
 	s = append(s, hop(c, HOp{Op: "return", Code: retCode, Msg: 7}), Step{Op: "drain"},
-		Step{Op: "send", C: c, B: 50}, Step{Op: "closesend", C: c}, Step{Op: "drain"},
+		Step{Op: "send", C: c, B: int64(50 * (k % 2))}, Step{Op: "closesend", C: c}, Step{Op: "drain"},
 		Step{Op: "recv", C: c}, Step{Op: "recv", C: c}, Step{Op: "recv", C: c})
 	s = append(s, probeSteps(probeDl)...)
 	s = append(s, post...)
@@ -428,7 +441,7 @@ func c11Scenarios(full bool) []cwScenario {
 
 // client words: the real client against a scripted peer; one stream (call 0) is opened, then every word over
 // the alphabet below, API-conformant (no Send after CloseSend, one CloseSend), cancel at every position
-var clientLetters = []string{"send", "closesend", "recv", "cancel", "expire", "pbody", "ptrailer", "unary", "wfail"}
+var clientLetters = []string{"send", "closesend", "recv", "cancel", "expire", "pbody", "ptrailer", "unary", "wfail", "sendbad"}
 
 func clientWord(w []int) (cwScenario, bool) {
 	s := []Step{{Op: "open", Kind: "Bidi", D: 4000}}
@@ -443,7 +456,13 @@ func clientWord(w []int) (cwScenario, bool) {
 			if closed {
 				return cwScenario{}, false
 			}
-			s = append(s, Step{Op: "send", C: 0, B: int64(10 + i)})
+			s = append(s, Step{Op: "send", C: 0, B: int64((10 + i) * (i % 2))})
+		case "sendbad":
+			// a message the codec rejects (not a send after CloseSend either)
+			if closed {
+				return cwScenario{}, false
+			}
+			s = append(s, Step{Op: "send", C: 0, B: -1})
 		case "closesend":
 			if closed {
 				return cwScenario{}, false
@@ -457,7 +476,7 @@ func clientWord(w []int) (cwScenario, bool) {
 		case "expire":
 			s = append(s, Step{Op: "tick", D: 4000})
 		case "pbody":
-			s = append(s, Step{Op: "peer", Env: bodyEnv(0, int64(20+i))})
+			s = append(s, Step{Op: "peer", Env: bodyEnv(0, int64((20+i)*((i+1)%2)))})
 		case "ptrailer":
 			s = append(s, Step{Op: "peer", Env: trlEnv(0, int64(5*(i%2)))})
 		case "unary":
@@ -484,7 +503,7 @@ func serverWord(w []int, kind string) (cwScenario, bool) {
 			if closed || reset {
 				return cwScenario{}, false
 			}
-			s = append(s, Step{Op: "cli", M: m, Env: bodyEnv(0, int64(10+i))})
+			s = append(s, Step{Op: "cli", M: m, Env: bodyEnv(0, int64((10+i)*(i%2)))})
 		case "cc":
 			if closed || reset {
 				return cwScenario{}, false
@@ -575,7 +594,7 @@ func serverSpecials() []cwScenario {
 				s = append(s, Step{Op: "cli", M: "/verif.Echo/Bidi", Env: &EnvSpec{Call: 0, Hdr: "ok:0", Trl: "none"}}, hop(0, HOp{Op: "return"}))
 			}
 			for i := 0; i < d; i++ {
-				s = append(s, Step{Op: "cli", M: "/verif.Echo/Bidi", Env: bodyEnv(0, int64(10+i))})
+				s = append(s, Step{Op: "cli", M: "/verif.Echo/Bidi", Env: bodyEnv(0, int64((10+i)*((i+d)%2)))})
 			}
 			s = append(s, Step{Op: "cli", M: "/verif.Echo/Bidi", Env: trlEnv(0, 0)},
 				Step{Op: "cli", M: "/verif.Echo/Bidi", Env: &EnvSpec{Call: 0, Hdr: "ok:0", Trl: "none", Rst: true}}, u(1, 62))
